@@ -136,11 +136,12 @@ def _run_once(case, minimize, negate):
             bounds = [tuple(b) for b in case["bounds"]]
             x0 = list(case["x0"])
             if s == "differential_evolution":
-                r = solvor.differential_evolution(proxy, bounds, minimize=minimize, **pk, population_size=case.get("pop", 6), strategy=case.get("strategy", "rand/1"),
+                wk = {"initial_population": [list(w) for w in case["warm"]]} if case.get("warm") else {}
+                r = solvor.differential_evolution(proxy, bounds, minimize=minimize, **pk, **wk, **case.get("kw", {}), population_size=case.get("pop", 6), strategy=case.get("strategy", "rand/1"),
                                                   max_iter=case["max_iter"], seed=seed)
             elif s == "particle_swarm":
                 wk = {"initial_positions": [list(w) for w in case["warm"]]} if case.get("warm") else {}     # warm starts, some beyond the box
-                r = solvor.particle_swarm(proxy, bounds, minimize=minimize, **pk, **wk, n_particles=case.get("pop", 6), max_iter=case["max_iter"], seed=seed)
+                r = solvor.particle_swarm(proxy, bounds, minimize=minimize, **pk, **wk, **case.get("kw", {}), n_particles=case.get("pop", 6), max_iter=case["max_iter"], seed=seed)
             elif s == "nelder_mead":
                 r = solvor.nelder_mead(proxy, x0, minimize=minimize, **pk, max_iter=case["max_iter"], adaptive=case.get("adaptive", False), initial_step=case.get("step", 0.5))
             elif s == "bayesian_opt":
@@ -234,7 +235,13 @@ def gen(rng, solver=None):
             if rng.random() < 0.5:         # small populations (differential_evolution pads them to 4; the /2 strategies need >= 6),
                 # short runs: what was evaluated while setting up must not be forgotten
                 case.update(pop=rng.choice([1, 2, 3, 3, 4, 5]), strategy=rng.choice(["rand/1", "best/1"]), max_iter=rng.choice([0, 1, 1, 2, 4]))
-        if s == "particle_swarm" and rng.random() < 0.4:
+        if s in ("differential_evolution", "particle_swarm") and rng.random() < 0.3:
+            # rarely used tuning parameters, inside their documented ranges
+            case["kw"] = ({"mutation": rng.choice([0.3, 0.8, 1.5]), "crossover": rng.choice([0.0, 0.5, 1.0]), "tol": rng.choice([0.0, 1e-8, 0.5])}
+                          if s == "differential_evolution" else
+                          {"inertia": rng.choice([0.4, 0.9]), "inertia_decay": rng.choice([None, 0.2]), "cognitive": rng.choice([0.0, 1.5, 2.5]),
+                           "social": rng.choice([0.0, 1.5, 2.5]), "v_max": rng.choice([None, 0.1, 10.0])})
+        if s in ("differential_evolution", "particle_swarm") and rng.random() < 0.4:
             # warm starts (initial_positions), some of them outside the box, and the objective's centre on one of them: the best point
             # the caller can offer is one the solver may not return
             case["warm"] = [[round(rng.uniform(b[0] - 3, b[1] + 3), 2) for b in bounds] for _ in range(rng.choice([1, 2, 3, 8]))]
